@@ -61,6 +61,14 @@ def emptiness(enc):
 
 
 def judge(case):
+    R.FORM[0] = case.get('form')
+    try:
+        return _judge(case)
+    finally:
+        R.FORM[0] = None
+
+
+def _judge(case):
     from dznpy.text_gen import TextBlock, chunk, cond_chunk  # pylint: disable=import-outside-toplevel
     enc = case['enc']
     out = []
@@ -253,6 +261,9 @@ def work_strings(slot):
         if i % nslots == idx:
             cases.append({'enc': {'s': s}})
             cases.append({'enc': ['L', {'s': 'x'}, {'s': s}, None]})
+            # REPRESENTATION: the same content as instances of subclasses of str / list / dict
+            cases.append({'enc': {'s': s}, 'form': 'subclass'})
+            cases.append({'enc': ['L', {'s': 'x'}, ['D', {'s': s}], None], 'form': 'subclass'})
     if idx == 1 % nslots:
         # the SAME list / dict / TextBlock object at several positions of one content value
         subs = [['L', {'s': ''}], ['L', {'s': 'x'}], ['D', {'s': 'y'}], ['L'], ['T', {'s': 't'}], ['L', {'s': 'a\nb'}, None],
